@@ -29,6 +29,7 @@ type stepRec struct {
 	Op     memsim.Op     `json:"op"`
 	Direct memsim.Result `json:"direct"`
 	Via    memsim.Result `json:"via"`
+	Stat   int           `json:"via_status,omitempty"` // status of the HTTPError in the stack's error (0: none)
 	Trace  []BCall       `json:"trace"`
 }
 
@@ -42,6 +43,47 @@ type runResult struct {
 	steps []stepRec
 	snap  []snapRec
 	orc   *orcC03
+	stack bool // the composed model (coq/Obs/C03Run.v) is evaluated on this case
+}
+
+// memsim drains every BlobReader with io.ReadAll, whose first Read has a 512-byte buffer (later
+// ones are larger); the model's caller (coq/Model/Client.v drain) reads with one buffer size
+// throughout: c_bufsz.  The size of the caller's buffer decides only in which Read an error is
+// reported, and the harness reports a failed read as an error without the bytes read so far, so
+// no answer depends on it.  The model's drain is quadratic in the number of Reads (131073 bytes
+// in 512-byte Reads: 1.4 s of vm_compute per read instead of 0.2 s), so in the quick tier a
+// history that holds a content above 4 KiB is evaluated with a buffer that takes any content in
+// one Read; the thorough tier uses 512 everywhere.
+const readBufSmall = 512
+const readBufLarge = 1 << 18
+
+var thoroughTier bool
+
+func (r runResult) bufSize() int {
+	if !thoroughTier && len(r.orc.BigContents()) > 0 {
+		return readBufLarge
+	}
+	return readBufSmall
+}
+
+// moreCoq is the table of sha384 / sha512 values the composed model may need: for every content
+// of the history whose digest under one of these algorithms is mentioned in the history.
+func (o *orcC03) moreCoq() string {
+	var out []string
+	var cs []string
+	for c := range o.Hash {
+		cs = append(cs, c)
+	}
+	sort.Strings(cs)
+	for _, c := range cs {
+		for _, d := range []string{sha384Digest([]byte(c)), sha512Digest([]byte(c))} {
+			if _, ok := o.Digests[d]; ok {
+				alg, hex, _ := strings.Cut(d, ":")
+				out = append(out, fmt.Sprintf("(%s, %s, %s)", hx.B(alg), hx.B(c), hx.B(hex)))
+			}
+		}
+	}
+	return hx.List(out)
 }
 
 // orcC03 is memsim's oracle table plus the list of large contents seen.
@@ -89,6 +131,7 @@ func execHistory(h history) runResult {
 	written := map[int][]byte{}
 	var res runResult
 	res.orc = &orcC03{or}
+	res.stack = true
 	for _, o := range h.Ops {
 		or.Observe(o)
 		if o.Kind == "WCommit" {
@@ -115,6 +158,7 @@ func execHistory(h history) runResult {
 			cur[sess] = rB.W
 			rB.W = sess
 		}
+		stat := st.spy.takeStatus()
 		st.quiesce()
 		tr := st.rec.take()
 		if o.Kind == "WWrite" && rA.Kind == "n" {
@@ -130,7 +174,7 @@ func execHistory(h history) runResult {
 				or.Observe(*c.Op)
 			}
 		}
-		res.steps = append(res.steps, stepRec{Op: o, Direct: rA, Via: rB, Trace: tr})
+		res.steps = append(res.steps, stepRec{Op: o, Direct: rA, Via: rB, Stat: stat, Trace: tr})
 	}
 	// the state both registries end in
 	for _, so := range snapshotOps(h.Ops, res.steps) {
@@ -221,8 +265,9 @@ func bcallsCoq(cs []BCall) string {
 }
 
 func (r runResult) coq(h history, strict bool) string {
-	var ops, dir, via, trs, snaps []string
+	var ops, dir, via, trs, snaps, stats []string
 	for _, s := range r.steps {
+		stats = append(stats, hx.Z(int64(s.Stat)))
 		ops = append(ops, s.Op.Coq())
 		dir = append(dir, s.Direct.Coq())
 		via = append(via, s.Via.Coq())
@@ -231,8 +276,9 @@ func (r runResult) coq(h history, strict bool) string {
 	for _, s := range r.snap {
 		snaps = append(snaps, fmt.Sprintf("(%s, %s, %s)", s.Op.Coq(), s.A.Coq(), s.B.Coq()))
 	}
-	return fmt.Sprintf("{| c_cfg := %s; c_main := %s; c_strict := %s; c_orc := %s; c_ops := %s; c_direct := %s; c_via := %s; c_trace := %s; c_snap := %s |}",
-		h.Stack.Coq(), hx.Bool(h.Stream == "main"), hx.Bool(strict), r.orc.Coq(), hx.List(ops), hx.List(dir), hx.List(via), hx.List(trs), hx.List(snaps))
+	return fmt.Sprintf("{| c_cfg := %s; c_main := %s; c_strict := %s; c_orc := %s; c_ops := %s; c_direct := %s; c_via := %s; c_trace := %s; c_snap := %s; c_more := %s; c_bufsz := %d; c_vstat := %s; c_stack := %s |}",
+		h.Stack.Coq(), hx.Bool(h.Stream == "main"), hx.Bool(strict), r.orc.Coq(), hx.List(ops), hx.List(dir), hx.List(via), hx.List(trs), hx.List(snaps),
+		r.orc.moreCoq(), r.bufSize(), hx.List(stats), hx.Bool(r.stack))
 }
 
 // ---- exploration aid (C03_DEBUG=1): differences seen on the Go side, never the verdict ----
